@@ -21,7 +21,7 @@ func c05Graph(r *rand.Rand) *lib.Graph {
 		ids[i] = fmt.Sprintf("%snode%d", lib.EX, i)
 	}
 	for i, id := range ids {
-		types := []string{lib.EX + pick(r, "T", "T", "U")}
+		types := []string{lib.EX + pick(r, "T", "T", "U", "data")}
 		if r.Intn(4) == 0 {
 			types = append(types, lib.EX+"Extra")
 		}
@@ -39,6 +39,13 @@ func c05Graph(r *rand.Rand) *lib.Graph {
 			tags := lib.Shuffled(r, []string{"get", "post", "put", "delete"})[:1+r.Intn(3)]
 			for _, t := range tags {
 				nd.Add(lib.EX+"tags", lib.StrV(t))
+			}
+		}
+		if r.Intn(3) == 0 {
+			// local names that are also names of AMF's built-in prefixes
+			nd.Add(lib.EX+"meta", lib.StrV(pick(r, "m1", "m2")))
+			if r.Intn(2) == 0 {
+				nd.Add(lib.EX+"core", lib.IntV(int64(r.Intn(5))))
 			}
 		}
 		if r.Intn(3) == 0 {
@@ -107,6 +114,13 @@ func c05Profiles() []*lib.ProfileDoc {
 			v("atmost", "ex.U", "atmost", lib.PC1("ex.child | ex.link", lib.CAtMost(1, lib.PC1("ex.name", sc("pattern", lib.Str("a")))))),
 			v("nested-inverse", "ex.U", "nested inverse", lib.PC1("ex.child^", lib.CNested(lib.PC1("ex.child", lib.CNested(lib.PC1("ex.name", sc("minCount", lib.Int(1)))))))),
 		),
+		mk("names-and-sets",
+			v("meta-required", "ex.T", "meta {{ex.meta}}", lib.PC1("ex.meta", sc("minCount", lib.Int(1)))),
+			v("core-range", "ex.data", "core", lib.PC1("ex.core", sc("maxInclusive", lib.Int(2)), sc("minCount", lib.Int(1)))),
+			v("data-children", "ex.data", "data children", lib.PC1("ex.child / ex.meta | ex.link / ex.meta", lib.CList("in", "m1"))),
+			v("unique-tags", "ex.T", "unique", lib.PC1("ex.child / ex.tags", sc("uniqueValues", lib.Bool(true)))),
+			v("unique-names", "ex.U", "unique names", lib.PC1("ex.link / ex.name", sc("uniqueValues", lib.Bool(true)))),
+		),
 		mk("logic",
 			v("either", "ex.T", "either", lib.OrE{Items: []lib.Expr{lib.PC1("ex.num", sc("minCount", lib.Int(1))), lib.PC1("ex.flag", sc("minCount", lib.Int(1)))}}),
 			v("cond", "ex.T", "cond", lib.IfE{If: lib.PC1("ex.tags", sc("minCount", lib.Int(1))), Then: lib.PC1("ex.name", sc("minCount", lib.Int(1))), Else: lib.PC1("ex.child", sc("minCount", lib.Int(1)))}),
@@ -120,16 +134,16 @@ func c05Profiles() []*lib.ProfileDoc {
 // C05: two documents denoting the same graph get the same conforms flag and the same result set.
 func c05(tier string) {
 	ctx := lib.NewCtx("C05", tier)
-	ctx.Rule = "random graphs (3-8 nodes, literals of three kinds, multi-valued properties, references incl. cycles and shared children) rendered once canonically (flat, expanded IRIs, arrays, value objects) and in random variants composing: prefix / @vocab / term-definition compaction, context arrays, @base-relative ids, embedding to depth<=5 (a node embedded once and referenced elsewhere), a node object split in two objects with the same @id, the plain context-free flat shape AMF emits, @graph wrapper with/without context, node order, key order, single value vs array, @type string vs array, native literals vs value objects, repeated values, repeated node objects, whitespace; each variant is first verified by json-gold (run by the harness) to flatten to the same graph, then validated against 5 profiles (23 validations: all constraint families, inverse/alternative/sequence paths, nested/atLeast/atMost, logic, placeholders); " +
+	ctx.Rule = "random graphs (3-8 nodes, literals of three kinds, multi-valued properties, references incl. cycles and shared children) rendered once canonically (flat, expanded IRIs, arrays, value objects) and in random variants composing: prefix / @vocab / term-definition compaction, context arrays, @base-relative ids, embedding to depth<=5 (a node embedded once and referenced elsewhere), a node object split in two objects with the same @id, the plain context-free flat shape AMF emits, @graph wrapper with/without context, node order, key order, single value vs array, order of the values of a property (never for properties printed by a message placeholder), @type string vs array, native literals vs value objects, repeated values, repeated node objects, whitespace; each variant is first verified by json-gold (run by the harness) to flatten to the same graph, then validated against 5 profiles (23 validations: all constraint families, inverse/alternative/sequence paths, nested/atLeast/atMost, logic, placeholders); " +
 		"non-trivial & distinct = (graph, variant) whose report has at least one result"
-	ctx.Assumptions = []string{"every node has an explicit IRI @id; value order inside a property is never permuted; numbers are not re-spelled; no typed or language-tagged literals",
+	ctx.Assumptions = []string{"every node has an explicit IRI @id; value order is permuted only for properties no message placeholder prints; numbers are not re-spelled; no typed or language-tagged literals",
 		"json-gold v0.4.0, run independently, decides that a variant denotes the same graph (variants failing that self-check are dropped and counted)"}
 	nGraphs := ctx.N(400, 4000)
 	nVar := ctx.N(8, 12)
 	if !ctx.IsShard() {
 		ctx.RunShards()
 		ctx.MinDistinct = 100
-		for _, t := range []string{"prefix-compaction", "@vocab", "term-definitions", "@base-relative-ids", "embedding", "@graph-wrapper", "node-order", "key-order", "single-value-not-array", "@type-as-string", "repeated-value", "repeated-node-object", "whitespace", "context-array", "native-literals", "@graph-single-object", "root-node-object", "split-node-object", "plain-flat-context-free"} {
+		for _, t := range []string{"prefix-compaction", "@vocab", "term-definitions", "@base-relative-ids", "embedding", "@graph-wrapper", "node-order", "key-order", "single-value-not-array", "@type-as-string", "repeated-value", "repeated-node-object", "whitespace", "context-array", "native-literals", "@graph-single-object", "root-node-object", "split-node-object", "plain-flat-context-free", "value-order"} {
 			if ctx.Counter("transformation:"+t) == 0 {
 				ctx.Inconclusive("transformation never applied: " + t)
 			}
@@ -161,7 +175,7 @@ func c05(tier string) {
 			set      []string
 		}
 		refs := make([]*ref, len(profs))
-		pis := r.Perm(len(profs))[:ctx.N(3, 5)]
+		pis := r.Perm(len(profs))[:ctx.N(4, 6)]
 		for _, pi := range pis {
 			o := lib.ValidateCompiled(compiled[pi].Q, canon)
 			rep, err := parseOK(o)
